@@ -102,6 +102,9 @@ pub struct Grid {
     pub lanes: usize,
     pub data: Vec<f64>,
     pub dd: DDim,
+    pub lay: crate::layout::Lay,
+    pub xlay: crate::layout::Lay,
+    pub ylay: crate::layout::Lay,
 }
 
 impl Grid {
@@ -131,7 +134,9 @@ impl Grid {
         let data = values::<T>(src, nx * ny * lanes, vc, sc);
         let rank = 2 + trailing.len();
         let dd = if src.chance(1, 4) { DDim::Dyn } else { DDim::of_rank(rank) };
-        Grid { nx, ny, x, y, cx, cy, trailing, lanes, data, dd }
+        let lay = crate::layout::pick_lay(src);
+        let (xlay, ylay) = (crate::layout::pick_lay(src), crate::layout::pick_lay(src));
+        Grid { nx, ny, x, y, cx, cy, trailing, lanes, data, dd, lay, xlay, ylay }
     }
     pub fn shape(&self) -> Vec<usize> {
         let mut s = vec![self.nx, self.ny];
@@ -142,9 +147,9 @@ impl Grid {
         self.data[(i * self.ny + j) * self.lanes + l]
     }
     pub fn build<T: Flt>(&self, extrapolate: bool) -> Result<Box<dyn I2<T>>, Fail> {
-        let xo = if self.cx == AxisClass::Index { None } else { Some(arr_1::<T>(&self.x)) };
-        let yo = if self.cy == AxisClass::Index { None } else { Some(arr_1::<T>(&self.y)) };
-        match build2::<T>(xo, yo, arr_d::<T>(&self.shape(), &self.data), self.dd, extrapolate) {
+        let xo = if self.cx == AxisClass::Index { None } else { Some(crate::layout::realise1(arr_1::<T>(&self.x), self.xlay, T::of(-9.0e9))) };
+        let yo = if self.cy == AxisClass::Index { None } else { Some(crate::layout::realise1(arr_1::<T>(&self.y), self.ylay, T::of(-9.0e9))) };
+        match build2::<T>(xo, yo, crate::layout::realise(arr_d::<T>(&self.shape(), &self.data), self.lay, T::of(-3.5e5)), self.dd, extrapolate) {
             Some(Ok(i)) => Ok(i),
             Some(Err(e)) => Err(Fail::new("build-failed", format!("valid grid rejected: {e}"))),
             None => Err(Fail::new("oracle-bug", "grid not expressible")),
@@ -157,6 +162,7 @@ impl Grid {
         obs.class(if self.cx == AxisClass::Index && self.cy == AxisClass::Index { "axes:default" } else { "axes:explicit" });
         obs.class(format!("ddim:{}", self.dd.name()));
         obs.class(format!("rank:{}", 2 + self.trailing.len()));
+        obs.class(format!("datalayout:{}", self.lay.0.name()));
     }
     pub fn describe<T: Flt>(&self) -> serde_json::Value {
         json!({"T": T::NAME, "nx": self.nx, "ny": self.ny, "x": ffs::<T>(&self.x, 6), "y": ffs::<T>(&self.y, 6),
@@ -202,6 +208,10 @@ pub fn eval2<T: Flt>(interp: &dyn I2<T>, qs: &[(f64, f64)], ep: usize, lanes: us
             };
             let xa = ndarray::ArrayD::from_shape_vec(IxDyn(&qshape), qs.iter().map(|q| T::of(q.0)).collect()).unwrap();
             let ya = ndarray::ArrayD::from_shape_vec(IxDyn(&qshape), qs.iter().map(|q| T::of(q.1)).collect()).unwrap();
+            // the memory layout of the query arrays is varied as a deterministic function of their content
+            let hq = qs.iter().fold(0x51u64, |h, q| crate::common::splitmix(h ^ q.0.to_bits() ^ q.1.to_bits().rotate_left(32)));
+            let xa = crate::layout::realise(xa, crate::layout::lay_from_hash(hq), T::of(-4.0e4));
+            let ya = crate::layout::realise(ya, crate::layout::lay_from_hash(hq ^ 0xFACE), T::of(-4.0e4));
             match interp.t_array(xa.view(), ya.view(), qd).unwrap() {
                 Ok(a) => {
                     let mut want = qshape.clone();
@@ -251,7 +261,7 @@ fn run<T: Flt>(src: &mut Src, obs: &mut Obs) -> Result<(), Fail> {
                 }
             }
         }
-        let gt = Grid { nx: g.ny, ny: g.nx, x: g.y.clone(), y: g.x.clone(), cx: g.cy, cy: g.cx, trailing: g.trailing.clone(), lanes: g.lanes, data: d, dd: g.dd };
+        let gt = Grid { nx: g.ny, ny: g.nx, x: g.y.clone(), y: g.x.clone(), cx: g.cy, cy: g.cx, trailing: g.trailing.clone(), lanes: g.lanes, data: d, dd: g.dd, lay: g.lay, xlay: g.ylay, ylay: g.xlay };
         let it = gt.build::<T>(false)?;
         let sw: Vec<(f64, f64)> = qs.iter().map(|q| (q.1, q.0)).collect();
         obs.class("companion:transpose");
